@@ -30,7 +30,7 @@ func init() {
 			"no-shared-defaults (C14's borrow analysis, also through variadic merge helpers): no target handed out aliases the default header value slices or the default body, so concurrent callers never append into one backing array; the static rotation counts atomic operations over the closure and the cursor helpers it calls. " +
 			"NOT DECIDED: the multiset equality itself (implied by these plus C14); race-detector runs are another family.",
 		Assumptions: []string{"sync.Mutex and sync/atomic semantics"},
-		MinObs:      6,
+		MinObs:      7,
 		Run:         runC15,
 	})
 }
